@@ -370,6 +370,7 @@ class Contract:
         self.opaque_calls: List[str] = []      # callee qualnames never inlined even without contract (=> Unsupported)
         self.touch: List[str] = []             # parameter names whose class axioms are instantiated at entry
         self.max_paths: int = 4000
+        self.timeout_factor: float = 1.0   # solver budget multiplier for quantifier-heavy contracts
         self.notes: str = ""
         self.xval: Optional[Callable[..., Any]] = None  # generator of native inputs for cross-validation
         self.reify: Optional[Callable[..., Any]] = None
